@@ -106,7 +106,7 @@ class StreamPeer:
     def _mk(self):
         self.reader = asyncio.StreamReader(limit=2 ** 26, loop=asyncio.get_running_loop())
         reader = self.reader
-        self.writer = FakeWriter(self._on_bytes, lambda: None if reader.at_eof() or reader.exception() else reader.feed_eof())
+        self.writer = FakeWriter(self._on_bytes, lambda: None if _eof_fed(reader) or reader.exception() else reader.feed_eof())
         self._buf = b''
         return self.reader, self.writer
 
@@ -116,19 +116,24 @@ class StreamPeer:
 
     # harness side
     def feed(self, chunk: bytes):
-        if self.reader is None or self.reader.at_eof() or self.reader.exception() is not None:
+        if self.reader is None or _eof_fed(self.reader) or self.reader.exception() is not None:
             return False
         if chunk:
             self.reader.feed_data(chunk)
         return True
 
     def eof(self):
-        if self.reader is not None and not self.reader.at_eof():
+        if self.reader is not None and not _eof_fed(self.reader):
             self.reader.feed_eof()
 
     def reset(self):
         if self.reader is not None and self.reader.exception() is None:
             self.reader.set_exception(ConnectionResetError('simulated reset'))
+
+
+def _eof_fed(reader):
+    # at_eof() is only true once the buffer has been drained as well; what matters here is whether EOF was fed
+    return reader._eof
 
 
 class FakeDatagramTransport:
